@@ -135,6 +135,18 @@ CHECKS["C08"] = dict(
     design_ref="DESIGN.md#c08",
 )
 
+CHECKS["C01"] = dict(
+    category="exploration",
+    text="Positive cases are drawn through operation.as_strategy (the engine's entry point) for operations built from pools of "
+    "satisfiable-by-construction schemas in every location, in OpenAPI 2.0/3.0/3.1, under allow_x00 x codec x security-parameter "
+    "settings; the value of each location is captured before serialisation by wrapping the strategy factories and judged by an "
+    "independent OpenAPI->JSON Schema reading (request mode: readOnly banned), required-parameter presence, undeclared parameters, "
+    "NUL/codec restrictions; Unsatisfiable / zero cases for such an operation is a violation.",
+    note="Formats without an exact independent checker and ECMA-only regex features are not judged; pattern semantics = Python re.search.",
+    technique="runtime monitoring: raw-value capture at the strategy factories + independent schema oracle over thousands of draws",
+    design_ref="DESIGN.md#c01",
+)
+
 NOT_APPLICABLE = {}
 
 
